@@ -4,7 +4,7 @@ import random
 
 # op -> (arity of int args, special)
 ARGN = {
-    "cube": 4, "lbox": 6, "cellrow": 4, "mergemesh": 1, "nest": 15, "speck": 4, "sphere": 2, "cyl": 5, "tet": 0, "levelset": 4, "extrude": 5, "revolve": 4, "hullpts": 3,
+    "cube": 4, "lbox": 6, "cellrow": 4, "mergemesh": 1, "soup": 3, "nest": 15, "speck": 4, "sphere": 2, "cyl": 5, "tet": 0, "levelset": 4, "extrude": 5, "revolve": 4, "hullpts": 3,
     "rot": 4, "rot90": 4, "trans": 4, "ltrans": 4, "scale": 4, "mirror": 4, "xf": 10,
     "add": 2, "sub": 2, "int": 2, "split": 2, "splitplane": 5, "trim": 5, "selfop": 3, "compose": 3,
     "hull": 1, "hull2": 2, "minksum": 4, "minkdiff": 4,
@@ -26,7 +26,7 @@ MIX_GENERAL = {
     "hull": 2, "hull2": 1, "minksum": 1, "minkdiff": 1,
     "refine": 2, "refinelen": 1, "refinetol": 1, "smoothout": 2, "smoothnorm": 1, "smoothmesh": 1, "simplify": 2,
     "settol": 1, "calcnorm": 2, "calccurv": 1, "setprops": 2, "warp": 2, "asorig": 1, "decompose": 1,
-    "rt64": 1, "rt32": 1, "mergemesh": 1, "copy": 1, "assign": 1, "force": 1,
+    "rt64": 1, "rt32": 1, "mergemesh": 1, "soup": 1, "copy": 1, "assign": 1, "force": 1,
     "slice": 1, "project": 1,
     "circle": 1, "square": 1, "xpoly": 1, "xrot": 1, "xtrans": 1, "xscale": 1, "xadd": 1, "xsub": 1, "xint": 1,
     "xoffset": 1, "xhull": 1, "xsimplify": 1, "xdecompose": 1, "xwarp": 1, "xcopy": 1, "xbatch": 1,
